@@ -109,6 +109,24 @@ func identityKeys(r *rand.Rand) []namedPk {
 	if z, err := crypto.AggregateBLSPrivateKeys([]crypto.PrivateKey{skFromInt(k), skFromInt(ref.Fr.Neg(k))}); err == nil {
 		out = append(out, namedPk{"identity-zero-sk", z.PublicKey()})
 	}
+	// the same with input key objects whose public keys were already computed (all of them / the last
+	// one only), and with three keys: whatever the aggregation pre-computes from cached inputs
+	for _, mode := range []string{"all-cached", "last-cached", "three-all-cached"} {
+		a1, a2 := skFromInt(k), skFromInt(ref.Fr.Neg(k))
+		list := []crypto.PrivateKey{a1, a2}
+		if mode == "three-all-cached" {
+			k2 := randScalar(r)
+			list = []crypto.PrivateKey{skFromInt(k), skFromInt(k2), skFromInt(ref.Fr.Neg(ref.Fr.Add(k, k2)))}
+		}
+		for i, s := range list {
+			if mode != "last-cached" || i == len(list)-1 {
+				_ = s.PublicKey()
+			}
+		}
+		if z, err := crypto.AggregateBLSPrivateKeys(list); err == nil {
+			out = append(out, namedPk{"identity-zero-sk-" + mode, z.PublicKey()})
+		}
+	}
 	return out
 }
 
